@@ -9,7 +9,7 @@ use serde_json::{json, Value};
 pub const DEF: PropDef = PropDef {
     id: "C14",
     level: "exploration",
-    rule: "all ordered pairs of the 65-value universe U (every kind and coercion boundary); for each pair ~30 one-line programs are executed on the real interpreter (and the same cells on rrss::exec::val::Val) and only relations between their results are checked (symmetry, negation, converse orderings incl. error<=>error, antisymmetry vs equality, logic vs truthiness, compound assignment vs its expansion, build-k/knock-k round trip for k=1..4); non-trivial = every case (each compares at least two executions); distinct = distinct (law family, a, b)",
+    rule: "all ordered pairs of the 65-value universe U (every kind and coercion boundary); for each pair ~30 one-line programs are executed on the real interpreter (and the same cells on rrss::exec::val::Val) and only relations between their results are checked (symmetry, negation, converse orderings incl. error<=>error, antisymmetry vs equality, logic vs truthiness, compound assignment vs its expansion (12 operator spellings incl. + - * / x 7 operand forms: variable, literal, pronoun, lists, the target itself), build-k/knock-k round trip for k=1..4); non-trivial = every case (each compares at least two executions); distinct = distinct (law family, a, b)",
     assumptions: &["relational oracle: no expected values, so it cannot inherit a table error from the code", "values outside U are not covered"],
     build,
     exhaustive: true,
@@ -37,6 +37,16 @@ fn build(_tier: Tier) -> Box<dyn Check> {
             ("build-knock".into(), bk),
         ],
     })
+}
+
+/// the literal that denotes universe value i, when its constructor is a plain `put <literal> into @`
+fn literal_spelling(i: usize) -> Option<String> {
+    let c = U[i].ctor;
+    let rest = c.strip_prefix("put ")?.strip_suffix(" into @\n")?;
+    if rest.contains(" over ") || rest.contains(" times ") || rest.contains(" plus ") || rest.contains('\n') {
+        return None;
+    }
+    Some(rest.to_string())
 }
 
 #[derive(Clone, Debug, PartialEq)]
@@ -172,17 +182,26 @@ impl Check for C14 {
             }
             1 => {
                 let pre = format!("{}{}", ctor(a, "x"), ctor(b, "y"));
-                for (sp, op) in [("plus", "plus"), ("with", "with"), ("minus", "minus"), ("times", "times"), ("over", "over"), ("without", "without"), ("of", "of"), ("between", "between")] {
-                    let c = match run(&pre, &format!("let x be {} y\nsay x\nsay x is y\n", sp), ctx) {
-                        Some(r) => r,
-                        None => return,
-                    };
-                    let e = match run(&pre, &format!("let x be x {} y\nsay x\nsay x is y\n", op), ctx) {
-                        Some(r) => r,
-                        None => return,
-                    };
-                    if c != e {
-                        ctx.violation("law-broken", format!("`let x be {} y` differs from `let x be x {} y` for x={} y={}: {:?} vs {:?}", sp, op, la, lb, c, e));
+                // the operand in every form: a variable, the literal spelling of the value, the pronoun (the
+                // target is the variable named last), a list, the target itself
+                let mut operands: Vec<String> = vec!["y".into(), "it".into(), "y, y".into(), "x".into(), "y, x".into()];
+                if let Some(l) = literal_spelling(b) {
+                    operands.push(l.clone());
+                    operands.push(format!("{}, {}", l, l));
+                }
+                for (sp, op) in [("plus", "plus"), ("with", "with"), ("minus", "minus"), ("times", "times"), ("over", "over"), ("without", "without"), ("of", "of"), ("between", "between"), ("+", "+"), ("-", "-"), ("*", "*"), ("/", "/")] {
+                    for e in &operands {
+                        let c = match run(&pre, &format!("say y\nlet x be {} {}\nsay x\nsay x is y\n", sp, e), ctx) {
+                            Some(r) => r,
+                            None => return,
+                        };
+                        let x = match run(&pre, &format!("say y\nlet x be x {} {}\nsay x\nsay x is y\n", op, e), ctx) {
+                            Some(r) => r,
+                            None => return,
+                        };
+                        if c != x {
+                            ctx.violation("law-broken", format!("`let x be {} {}` differs from `let x be x {} {}` for x={} y={}: {:?} vs {:?}", sp, e, op, e, la, lb, c, x));
+                        }
                     }
                 }
             }
